@@ -6,6 +6,37 @@ from adl import reset
 RESETS = [reset("rst"), reset("rst", active_low=True), reset("rst", is_async=True), reset("rst", active_low=True, is_async=True)]
 
 
+def onreset_designs(tier):
+    """C04: "... and registered on_reset actions run, irrespective of the state the process was in": an action that assigns a
+    defaulted port, an object without default and a variable, registered either way, for every reset flavour"""
+    from adl import assign, pint, ref, bin_, if_, await_, resize, obj, port, T, TRUE
+    A, B, D, S, V = ref("a"), ref("b"), ref("d"), ref("s"), ref("v")
+    ents = []
+    k = 0
+    for form in ("ctor", "call"):
+        for rst in RESETS:
+            sbody = [assign("next", "s", D), assign("next", "o", resize(S, 3)), if_(A, [assign("value", "v", bin_("add", V, pint(1)))]),
+                     assign("next", "q", V), if_(B, [assign("push", "p", TRUE)])]
+            e = gen_seq.seq_entity(f"E04R_{k:03d}", sbody, rst, f"onreset_seq_{form}")
+            e["ctxs"][0]["onreset"] = [assign("next", "o", pint(5)), assign("value", "v", pint(2)), if_(D_IS3(), [assign("next", "s", pint(1))])]
+            e["ctxs"][0]["onreset_form"] = form
+            ents.append(e)
+            k += 1
+            m = lambda x: assign("next", "o", pint(x))
+            cbody = [m(1), await_(A), m(2), assign("value", "v", bin_("add", V, pint(1))), assign("next", "q", V), await_(B), m(3)]
+            e = gen_seq.coro_entity(f"E04R_{k:03d}", cbody, {"o", "v", "q"}, rst, family=f"onreset_coro_{form}")
+            e["ctxs"][0]["onreset"] = [m(6), assign("value", "v", pint(3))]
+            e["ctxs"][0]["onreset_form"] = form
+            ents.append(e)
+            k += 1
+    return ents
+
+
+def D_IS3():
+    from adl import bin_, ref, pint
+    return bin_("eq", ref("d"), pint(3))
+
+
 def run(tier):
     rng = random.Random(vlib.seed() + 404)
     q = tier == "quick"
@@ -16,6 +47,7 @@ def run(tier):
     shapes_s = gen_seq.seq_designs(tier, rng, "E04S", resets=RESETS if not q else RESETS[2:3], with_extras=True, opts=True,
                                    n_random=40 if q else 600)
     ents = shapes_c + shapes_s
+    fixed_tail = onreset_designs(tier)
     if q:
         # rotate reset flavours over the fixed shapes so that every flavour is exercised in the quick tier
         i = 0
@@ -26,6 +58,7 @@ def run(tier):
                     i += 1
             e["family"] += "_" + "".join(("L" if c["reset"].get("active_low") else "H") + ("A" if c["reset"].get("async") else "S")
                                           for c in e["ctxs"] if c["kind"] == "seq" and c["reset"]["k"] != "none")
+    ents += fixed_tail
     with vlib.Scratch() as scratch:
         return product.run("C04", tier, ents, lambda e: 0, scratch, timeout=1500 if tier == "quick" else 7000,
                            rule="coroutine and plain sequential designs x reset flavours {sync,async} x {active high,low}, with an "
